@@ -311,7 +311,7 @@ func applyOp(b []byte, op string) ([]byte, bool) {
 			out = append(out, long...)
 		}
 		return out, true
-	case "drop-line", "dup-line", "cut-line", "stray-token", "bad-number":
+	case "drop-line", "dup-line", "cut-line", "stray-token", "bad-number", "junk-prefix", "recode-line":
 		lines := bytes.SplitAfter(b, []byte("\n"))
 		i := num(1)
 		if i < 0 || i >= len(lines) {
@@ -328,6 +328,33 @@ func applyOp(b []byte, op string) ([]byte, bool) {
 				return b, false
 			}
 			lines[i] = append(append([]byte(nil), lines[i][:c]...), '\n')
+		case "junk-prefix": // n bytes of another encoding (Latin-1, Shift-JIS, UTF-16 debris) in front of the line's text
+			n, style := num(2), num(3)
+			junk := make([]byte, 0, n)
+			r := simcore.NewRNG(uint64(n)*31 + uint64(style))
+			for len(junk) < n {
+				switch style {
+				case 0:
+					junk = append(junk, byte(0x80+r.Intn(0x80))) // high bytes: invalid UTF-8
+				case 1:
+					junk = append(junk, "\u023a\u023e\u0130"[2*(len(junk)%3):2*(len(junk)%3)+2]...) // runes whose case mapping changes their length
+				case 2:
+					junk = append(junk, 0xff, 0xfe)[:min(n, len(junk)+2)]
+				default:
+					junk = append(junk, byte(1+r.Intn(255)))
+					if junk[len(junk)-1] == '\n' {
+						junk[len(junk)-1] = 0xe4
+					}
+				}
+			}
+			l := bytes.TrimLeft(lines[i], " \t")
+			lines[i] = append(junk[:min(n, len(junk))], l...)
+		case "recode-line": // the line's letters in upper case / title case (exporters differ)
+			if num(2) == 0 {
+				lines[i] = bytes.ToUpper(lines[i])
+			} else {
+				lines[i] = bytes.Title(lines[i])
+			}
 		case "stray-token":
 			tok := "xyzzy"
 			if len(parts) > 2 {
